@@ -180,6 +180,16 @@ def run_harness(h, crate, root, tier):
             if "encountered one or more panics as expected" not in out:
                 res["detail"] = "should_panic harness without the expected-panic marker"
                 return res
+            # ... but the panic must be calloop's own refusal, not one of the harness's tagged assertions
+            own = sorted({m.group(1) for desc, fil in re.findall(r"Failed Checks: (.*)\n\s*File: \"([^\"]*)\"", out)
+                          for m in [re.search(r"\b(C\d\d\.[A-Za-z0-9_.-]+)", desc)] if m and "/vk/" in fil})
+            if own:
+                res["failed_tags"] = own
+                res["playback"] = re.findall(r"```\n(.*?)```", out, flags=re.S)
+                res["status"] = "cex"
+                res["detail"] = "counterexample for: " + ", ".join(own)
+                res["need_tag_in_replay"] = True
+                return res
             cover_ok = True
         if not cover_ok:
             res["detail"] = "vacuous: reachability witness (kani::cover!) not satisfied"
@@ -262,6 +272,8 @@ def replay_many(items, crate, root):
             for n in names[h["name"]]:
                 if re.search(r"test \S*%s \.\.\. FAILED" % re.escape(n), out):
                     repro = True
+            if r.get("need_tag_in_replay") and not any(t in out for t in r.get("failed_tags") or []):
+                repro = False       # the native run must die in the tagged assertion, not in the expected panic
             mine_txt = "\n".join(t for t in (r.get("playback") or []) if "Check for `cover`" not in t)
             panics = "\n".join(l for l in out.splitlines() if "panicked at" in l or "assertion" in l.lower())[:3000]
             out_map[h["name"]] = (repro, mine_txt + "\n// ---- native run (cargo kani playback) ----\n// "
